@@ -262,8 +262,16 @@ def compile_cfg(run, specs, cfg, deps):
     return results
 
 
+def fam_phf(r, name):
+    s = strgen.build(r, name, ["EnumString", "EnumCount", "VariantNames"], n=r.choice([1, 2, 4, 7]), fieldless=True, uni=True, capture_types=["FixBuf"])
+    s.use_phf = True
+    s.std_derives = ["Debug", "PartialEq", "Clone"]
+    s.tags = ["phf"]
+    return s
+
+
 def check(run):
-    deps, vmon = setup(run, cfgs=("std", "nostd"))
+    deps, vmon = setup(run, cfgs=("std", "nostd", "phf"))
     thorough = run.tier == "thorough"
     r = gen.rng_for(run.seed, "c19")
     specs = []
@@ -276,9 +284,16 @@ def check(run):
         if s is not None:
             specs.append(s)
     run.rule = RULE
+    # use_phf arm: needs strum's phf feature, so it is compiled against the phf build under every configuration except no_std
+    pspecs = [fam_phf(r, "P%d" % i) for i in range(200 if thorough else 40)]
     res = {}
     for cfg in CONFIGS:
         res[cfg] = compile_cfg(run, specs, cfg, deps["nostd"] if cfg == "a_nostd" else deps["std"])
+        if cfg != "a_nostd":
+            res[cfg].update(compile_cfg(run, pspecs, cfg, deps["phf"]))
+        else:
+            res[cfg].update({p.name: "skipped" for p in pspecs})
+    specs = specs + pspecs
     base_bad = [n for n, v in res["d_std"].items() if v is not None]
     for n in base_bad:
         run.count("baseline-rejected")
@@ -289,10 +304,12 @@ def check(run):
         for s in specs:
             if res["d_std"][s.name] is not None:
                 continue
+            v = res[cfg].get(s.name)
+            if v == "skipped":
+                continue
             run.evaluations += 1
             run.distinct += 1
             run.count("compiled/%s" % cfg)
-            v = res[cfg].get(s.name)
             if v is not None:
                 summ, src, rendered = v
                 run.violation("nostd-path:%s:%s" % (cfg, shards.norm_msg(summ)),
@@ -319,6 +336,6 @@ def check(run):
         fams["field-less/15 derives" if s.name.startswith("F") else ("lifetime/11 derives" if s.generics in ("a", "aT") else "data/13 derives")] += 1
     run.extra["families"] = fams
     for s in specs[:6]:
-        run.samples.append({"enum": s.render(), "observed": {cfg: ("compiles" if res[cfg][s.name] is None else "rejected") for cfg in CONFIGS}})
+        run.samples.append({"enum": s.render(), "observed": {cfg: ("compiles" if res[cfg][s.name] is None else ("not compiled (phf needs std)" if res[cfg][s.name] == "skipped" else "rejected")) for cfg in CONFIGS}})
     run.assumptions = ["rustc name resolution is the judge of which crates a program depends on", "core-only payload types in the corpus",
                        "deprecated derives (ToString, AsStaticStr, EnumVariantNames) excluded as the property states"]
